@@ -178,6 +178,15 @@ func c15R1(c *Ctx) {
 							c.OK(RB, fmt.Sprintf("%s|limited-by:%s", FnName(f), name), u.Pos(), "the body is consumed only through "+name)
 						case g != nil && fnPkgPath(g) == pkgPath("internal/httputil") && handsBack:
 							continue // wrapped as seekable content and handed back
+						case g != nil && c15HelperLimitsArg(g, u, v, isLimiter, 2):
+							limited = append(limited, u)
+							if ErrResultIndex(g.Signature) >= 0 {
+								r := ErrFlow(u, ErrFlowOpts{})
+								c.Check(RE, FnName(f)+"|"+name, u.Pos(), r.OK, r.How+r.Detail)
+							}
+							c.OK(RB, fmt.Sprintf("%s|limited-by:%s", FnName(f), name), u.Pos(), "the body is handed to "+name+", which consumes it only through a size limiter")
+						case g != nil && inModule(g) && handsBack && c15HelperHandsBack(g, u, v):
+							continue // helper that wraps / returns the body as content for the caller
 						default:
 							c.Violation(RB, key+name, u.Pos(), "the response body is passed to "+name+" without a size limiter: an arbitrarily large metadata response would be read into memory")
 						}
@@ -188,12 +197,9 @@ func c15R1(c *Ctx) {
 			}
 		}
 	}
-	// readers of a response body (limited or not): their errors propagate
+	// every JSON decode / ReadAll of these packages (all of them read registry or token responses, in the function or a helper): errors propagate
 	for _, rel := range c15Pkgs {
 		for _, f := range c.P.FuncsOfPkg(rel) {
-			if len(c13FieldLoads(f, c13PkgHTTP, "Response", "Body", nil)) == 0 {
-				continue
-			}
 			for _, call := range CallsTo(f, "(*encoding/json.Decoder).Decode", "io.ReadAll") {
 				r := ErrFlow(call, ErrFlowOpts{})
 				c.Check(RE, FnName(f)+"|"+CalleeName(call), call.Pos(), r.OK, r.How+r.Detail)
@@ -272,6 +278,107 @@ func c15R1(c *Ctx) {
 	for _, l := range lims {
 		c15LimiterBody(c, RH, l)
 	}
+}
+
+// c15HelperLimitsArg: the in-module callee g uses the reader parameter that
+// receives v only as Close receiver or as first argument of io.LimitReader /
+// the limit helper / another such helper.
+func c15HelperLimitsArg(g *ssa.Function, call ssa.CallInstruction, v ssa.Value, isLimiter map[*ssa.Function]bool, depth int) bool {
+	if !inModule(g) || len(g.Blocks) == 0 || len(g.Params) != len(call.Common().Args) {
+		return false
+	}
+	idx := -1
+	for i, a := range call.Common().Args {
+		if a == v {
+			idx = i
+		}
+	}
+	if idx < 0 {
+		return false
+	}
+	limitedUse := false
+	for a := range Aliases(g.Params[idx]) {
+		if a.Referrers() == nil {
+			continue
+		}
+		for _, use := range *a.Referrers() {
+			switch u := use.(type) {
+			case *ssa.DebugRef, *ssa.Phi, *ssa.ChangeInterface, *ssa.MakeInterface, *ssa.ChangeType, *ssa.BinOp:
+			case *ssa.Store:
+				if _, isCell := u.Addr.(*ssa.Alloc); !isCell {
+					return false
+				}
+			case ssa.CallInstruction:
+				cc := u.Common()
+				if cc.IsInvoke() && cc.Value == a {
+					if cc.Method.Name() != "Close" {
+						return false
+					}
+					continue
+				}
+				h := StaticCallee(u)
+				switch {
+				case CalleeName(u) == "io.LimitReader" && cc.Args[0] == a, h != nil && isLimiter[h] && cc.Args[0] == a:
+					limitedUse = true
+				case h != nil && depth > 0 && c15HelperLimitsArg(h, u, a, isLimiter, depth-1):
+					limitedUse = true
+				default:
+					return false
+				}
+			default:
+				return false
+			}
+		}
+	}
+	return limitedUse
+}
+
+// c15HelperHandsBack: the callee returns the body (possibly wrapped as a
+// seekable reader by internal/httputil) as an io.ReadCloser and does nothing else with it.
+func c15HelperHandsBack(g *ssa.Function, call ssa.CallInstruction, v ssa.Value) bool {
+	if len(g.Blocks) == 0 || len(g.Params) != len(call.Common().Args) {
+		return false
+	}
+	rs := g.Signature.Results()
+	has := false
+	for i := 0; i < rs.Len(); i++ {
+		if c13IsNamed(rs.At(i).Type(), "io", "ReadCloser") {
+			has = true
+		}
+	}
+	if !has {
+		return false
+	}
+	for i, a := range call.Common().Args {
+		if a != v {
+			continue
+		}
+		for al := range Aliases(g.Params[i]) {
+			if al.Referrers() == nil {
+				continue
+			}
+			for _, use := range *al.Referrers() {
+				switch u := use.(type) {
+				case *ssa.DebugRef, *ssa.Phi, *ssa.ChangeInterface, *ssa.MakeInterface, *ssa.ChangeType, *ssa.BinOp, *ssa.Return:
+				case *ssa.Store:
+					if _, isCell := u.Addr.(*ssa.Alloc); !isCell {
+						return false
+					}
+				case ssa.CallInstruction:
+					h := StaticCallee(u)
+					if u.Common().IsInvoke() && u.Common().Value == al && u.Common().Method.Name() == "Close" {
+						continue
+					}
+					if h == nil || fnPkgPath(h) != pkgPath("internal/httputil") {
+						return false
+					}
+				default:
+					return false
+				}
+			}
+		}
+	}
+	return true
 }
 
 // c15Truncation: io.ReadAll over a limited reader stops silently at the limit
@@ -452,7 +559,46 @@ func c15PosEdges(fn *ssa.Function, vals map[ssa.Value]bool) []Edge {
 
 // c15LimitValueOK: the limit value is the int64 parameter (only where it is
 // known positive) or a package-level default.
+// c15IsLimitNormaliser: h is func(n int64) int64 returning n only where it is
+// known positive and a package-level default otherwise (a shared
+// "effective limit" helper).
+func c15IsLimitNormaliser(h *ssa.Function) bool {
+	if h == nil || !inModule(h) || len(h.Blocks) == 0 || len(h.Params) != 1 || !c15IsInt64(h.Params[0].Type()) {
+		return false
+	}
+	rs := h.Signature.Results()
+	if rs.Len() != 1 || !c15IsInt64(rs.At(0).Type()) {
+		return false
+	}
+	np := h.Params[0]
+	pos := c15PosEdges(h, Aliases(np))
+	sawDefault, sawParam := false, false
+	for _, a := range RetAtoms(h, 0) {
+		switch v := a.Val.(type) {
+		case *ssa.Parameter:
+			if v != np || c13AtomReach(h.Blocks[0], 0, a, newCut().Edges(pos...)) {
+				return false
+			}
+			sawParam = true
+		case *ssa.UnOp:
+			if _, isG := v.X.(*ssa.Global); !isG || v.Op != token.MUL {
+				return false
+			}
+			sawDefault = true
+		case *ssa.Const:
+			sawDefault = true
+		default:
+			return false
+		}
+	}
+	return sawDefault && sawParam
+}
+
 func c15LimitValueOK(fn *ssa.Function, lim ssa.Value, param *ssa.Parameter) (ok bool, why string) {
+	// the effective limit computed by a shared normalising helper from the given limit
+	if call, isCall := lim.(*ssa.Call); isCall && len(call.Call.Args) == 1 && call.Call.Args[0] == ssa.Value(param) && c15IsLimitNormaliser(StaticCallee(call)) {
+		return true, ""
+	}
 	pos := c15PosEdges(fn, Aliases(param))
 	okRoot := func(r ssa.Value) (isParam, fine bool) {
 		if r == ssa.Value(param) {
@@ -616,7 +762,7 @@ func c15IsPageFn(g *ssa.Function) bool {
 	if rs.Len() != 2 || !isErrorType(rs.At(1).Type()) {
 		return false
 	}
-	if b, ok := rs.At(0).Type().Underlying().(*types.Basic); !ok || b.Kind() != types.String {
+	if !types.Identical(types.Unalias(rs.At(0).Type()), types.Typ[types.String]) {
 		return false
 	}
 	return len(c13SendSites(g)) > 0
@@ -647,8 +793,16 @@ func c15LinkFns(p *Prog) []*ssa.Function {
 		if rs.Len() != 2 || !isErrorType(rs.At(1).Type()) {
 			return false
 		}
-		b, ok := rs.At(0).Type().Underlying().(*types.Basic)
-		return ok && b.Kind() == types.String && len(c13SendSites(f)) == 0
+		if !types.Identical(types.Unalias(rs.At(0).Type()), types.Typ[types.String]) || len(c13SendSites(f)) > 0 {
+			return false
+		}
+		// it reads the Link header of the response (RFC 5988 header name: a protocol constant)
+		for _, g := range CallsTo(f, "(net/http.Header).Get") {
+			if s, ok := constString(g.Common().Args[1]); ok && s == "Link" {
+				return true
+			}
+		}
+		return false
 	})
 }
 
@@ -723,29 +877,58 @@ func c15R2(c *Ctx) {
 			}
 		}
 		c.Check(RL, fnm+"|page-call-every-iteration", P.Pos(), okEvery, "every path around the loop calls the page function")
-		okExit := e != nil
+		okExit, whyExit := e != nil, "the page function's error is discarded"
 		if e != nil {
-			_, nonNil, _ := NilTests(f, Aliases(e))
-			for _, x := range l.Exits {
-				found := false
-				for _, nn := range nonNil {
-					if nn == x {
-						found = true
-					}
-				}
-				if !found {
-					okExit = false
+			al := Aliases(e)
+			nilAll, nonNilAll, _ := NilTests(f, al)
+			var nilE, nonNilE []Edge
+			for _, x := range nilAll {
+				if l.Blocks[x.From] {
+					nilE = append(nilE, x)
 				}
 			}
-			if len(nonNil) == 0 {
-				okExit = false
+			for _, x := range nonNilAll {
+				if l.Blocks[x.From] {
+					nonNilE = append(nonNilE, x)
+				}
+			}
+			Pi := P.(ssa.Instruction)
+			switch {
+			case len(nilE) == 0:
+				okExit, whyExit = false, "the page function's error is not tested inside the loop"
+			case !MustPassBetween(Pi, Pi, newCut().Edges(nilE...)):
+				okExit, whyExit = false, "the next page can be requested although the page function failed (the loop continues past a non-nil error)"
+			}
+			// with a nil error the loop goes on to the next page call: no way out without calling the page function again
+			for _, ne := range nilE {
+				for _, x := range l.Exits {
+					if okExit && len(x.To.Instrs) > 0 && reach(ne.To, 0, x.To.Instrs[0], newCut().Instr(Pi)) {
+						okExit, whyExit = false, "the loop can be left although the page function succeeded and returned a next link: pages would be dropped"
+					}
+				}
+			}
+			// after an error no further page is requested
+			for _, nn := range nonNilE {
+				if okExit && reach(nn.To, 0, Pi, nil) {
+					okExit, whyExit = false, "after a failed page call another page call is reachable"
+				}
 			}
 		}
 		c.Check(RL, fnm+"|exit-iff-error", blockPos(l.Header), okExit,
-			ifelse(okExit, "the loop is left only on the edge where the page function's error is non-nil", "the page loop can be left (or can never be left) otherwise than by the page function's error: pages would be dropped or the listing would not end"))
+			ifelse(okExit, "the next page is requested only over the nil edge of the page function's error, and with a nil error the loop is not left", whyExit))
 		// (3) only errNoLink maps to success
 		r := ErrFlow(P, ErrFlowOpts{Tolerated: []string{c15NoLink}})
-		c.Check(RL, fnm+"|only-no-link-ends-listing", P.Pos(), r.OK, ifelse(r.OK, "after the loop every error other than errNoLink is returned", r.Detail))
+		okTol, whyTol := r.OK, r.Detail
+		if e != nil && okTol {
+			// every possibly-nil return after a page call (before the next one) lies behind `err is errNoLink`
+			// (also when that test comes before the nil test, as in `for { …; if err == errNoLink { return nil } … }`)
+			tol := toleratedEdges(f, Aliases(e), []string{c15NoLink})
+			pb, pi := c13AfterSite(P)
+			if bad := c13SuccessEscapes(f, pb, pi, newCut().Edges(tol...).Instr(P.(ssa.Instruction)), nil); bad != nil {
+				okTol, whyTol = false, fmt.Sprintf("the return at %s (error %s) reports success after a page call although the page function's error was not found to be errNoLink", c.P.Pos(bad.Ret.Pos()), describe(bad.Val))
+			}
+		}
+		c.Check(RL, fnm+"|only-no-link-ends-listing", P.Pos(), okTol, ifelse(okTol, "after a page call success is reported only over the edge err == errNoLink; every other error is returned", whyTol))
 		// (4) last only on the first page
 		if lastIdx >= 0 {
 			okLast := false
@@ -981,20 +1164,20 @@ func c15R3(c *Ctx) {
 			filtered[fc.Value()] = true
 		}
 		// edges on which filtering may be skipped: no filter requested, or the server declares it applied
-		var skip []Edge
+		// (also when these conditions are first combined in a boolean variable)
 		at := fcalls[0].Common().Args[1]
-		z, _ := c13LenZeroEdges(f, c13AliasSet(at))
-		for _, g := range applied {
-			for _, call := range c13CallsToFn(f, g) {
-				if cv, ok := call.(*ssa.Call); ok {
-					te, _ := BoolTests(f, map[ssa.Value]bool{cv: true})
-					skip = append(skip, te...)
-				}
-			}
-		}
 		conditional := len(c13SendSites(f)) > 0 // the API page may rely on the server; the tag-schema path may not
+		isApplied := map[*ssa.Function]bool{}
+		for _, g := range applied {
+			isApplied[g] = true
+		}
+		appliedClass := func(cond ssa.Value) (bool, bool) {
+			call, ok := cond.(*ssa.Call)
+			return ok && isApplied[StaticCallee(call)], false
+		}
+		var skip []Edge
 		if conditional {
-			skip = append(skip, z...)
+			skip = c13FactEdgesOfConds(f, c13OrClass(c13EmptyStringClass(c13AliasSet(at)), appliedClass))
 		}
 		for _, cb := range cbs {
 			ok := true
@@ -1105,37 +1288,38 @@ func c15R4(c *Ctx) {
 			continue
 		}
 		tagAl := Aliases(tag)
-		var after, notDigest []Edge
-		for _, i := range Ifs(f) {
-			cond, t, e := ifEdges(i)
-			bo, ok := cond.(*ssa.BinOp)
+		afterClass := func(cond ssa.Value) (bool, bool) {
+			op, other, ok := c13CmpNorm(cond, tagAl)
+			if !ok || !lastAl[other] {
+				return false, false
+			}
+			return op == token.GTR, op == token.LEQ
+		}
+		after := c13FactEdgesOfConds(f, afterClass)
+		afterOrNoLast := c13FactEdgesOfConds(f, c13OrClass(afterClass, c13EmptyStringClass(lastAl)))
+		notDigest := c13FactEdgesOfConds(f, func(cond ssa.Value) (bool, bool) {
+			op, other, ok := c13CmpNorm(cond, tagAl)
 			if !ok {
-				continue
+				return false, false
 			}
-			switch {
-			case tagAl[bo.X] && lastAl[bo.Y] && bo.Op == token.LEQ, lastAl[bo.X] && tagAl[bo.Y] && bo.Op == token.GEQ:
-				after = append(after, e)
-			case tagAl[bo.X] && lastAl[bo.Y] && bo.Op == token.GTR, lastAl[bo.X] && tagAl[bo.Y] && bo.Op == token.LSS:
-				after = append(after, t)
+			if call, isCall := other.(*ssa.Call); isCall && CalleeName(call) == "(digest.Digest).String" {
+				return op == token.NEQ, op == token.EQL
 			}
-			if bo.Op == token.EQL || bo.Op == token.NEQ {
-				var other ssa.Value
-				if tagAl[bo.X] {
-					other = bo.Y
-				} else if tagAl[bo.Y] {
-					other = bo.X
-				}
-				if call, ok := other.(*ssa.Call); ok && CalleeName(call) == "(digest.Digest).String" {
-					if bo.Op == token.EQL {
-						notDigest = append(notDigest, e)
-					} else {
-						notDigest = append(notDigest, t)
+			return false, false
+		})
+		hasAfterCmp := len(after) > 0
+		if !hasAfterCmp { // the comparison may only exist as a stored boolean
+			AllInstrs(f, func(in ssa.Instruction) {
+				if v, ok := in.(ssa.Value); ok {
+					if t, fl := afterClass(v); t || fl {
+						hasAfterCmp = true
 					}
 				}
-			}
+			})
 		}
-		okAfter := MustPass(ap.(ssa.Instruction), newCut().Edges(after...).Edges(zeroLast...))
-		c.Check(R4, fn+"|only-tags-after-last", ap.Pos(), okAfter && len(after) > 0, ifelse(okAfter && len(after) > 0, "a tag is listed only if last == \"\" or tag > last", "a tag not after `last` can be listed"))
+		_ = zeroLast
+		okAfter := MustPass(ap.(ssa.Instruction), newCut().Edges(afterOrNoLast...))
+		c.Check(R4, fn+"|only-tags-after-last", ap.Pos(), okAfter && hasAfterCmp, ifelse(okAfter && hasAfterCmp, "a tag is listed only if last == \"\" or tag > last", "a tag not after `last` can be listed"))
 		okDg := len(notDigest) > 0 && MustPass(ap.(ssa.Instruction), newCut().Edges(notDigest...))
 		c.Check(R4, fn+"|digest-entries-skipped", ap.Pos(), okDg, ifelse(okDg, "entries whose name is their own digest are skipped", "digest-named entries of the tag map can be listed as tags"))
 	}
